@@ -353,3 +353,130 @@ end SignaloModel.Registry
 #print axioms SignaloModel.Registry.alphaBeta_registry_correct
 #print axioms SignaloModel.Registry.schmitt_registry_correct
 #print axioms SignaloModel.Registry.slopes_registry_correct
+
+namespace SignaloModel.Registry
+open SignaloModel SignaloModel.Classify
+
+variable {α : Type} [Add α] [Sub α] [Mul α] [Div α] [Neg α] [OfNat α 0] [OfNat α 1]
+  [LT α] [DecidableLT α] [BEq α] [Median.POrd α] [Classify.Cmp α]
+
+/-- **C08 (debounce) at registry level**: for every threshold a `usize` can hold, the filter emits the "on" value
+exactly when the current run of predicate-equal samples has length `≥ threshold` (counter saturating at `2^64-1`) -/
+theorem debounce_registry_correct (thr : Nat) (hthr : thr ≤ usizeMax) (pred off on : α) (xs : List α) :
+    ∃ s' ys, (Cfg.debounce thr pred [off, on]).init.run (sing xs) = some (s', sing ys) ∧ ys.length = xs.length ∧
+      ∀ k x, xs[k]? = some x →
+        ys[k]? = some (if thr ≤ Spec.trailingRun pred (xs.take (k + 1)) then on else off) := by
+  have hrun := run_of_step (fun c => St.debounce thr pred [off, on] c)
+    (fun (c : Nat) x => (debounceStep usizeMax pred c x,
+      if thr ≤ debounceStep usizeMax pred c x then on else off))
+    (by
+      intro s x
+      simp only [St.filter, pick]
+      by_cases h : thr ≤ debounceStep usizeMax pred s x <;> simp [h]) 0 xs
+  refine ⟨_, _, hrun, stepRun_length _ _ _, ?_⟩
+  intro k x hx
+  rw [stepRun_getElem _ _ _ k x hx, take_succ_snoc xs k x hx, stepRun_state_foldl]
+  have hfold : ∀ (l : List α) (c : Nat), l.foldl (fun c x => debounceStep usizeMax pred c x) c = debounceRun usizeMax pred c l := by
+    intro l
+    induction l with
+    | nil => intro c; rfl
+    | cons a l ih => intro c; simp [debounceRun, ih]
+  simp only [hfold]
+  have hsnoc : debounceStep usizeMax pred (debounceRun usizeMax pred 0 (xs.take k)) x
+      = debounceRun usizeMax pred 0 (xs.take k ++ [x]) := by
+    rw [← hfold, ← hfold, List.foldl_append]; rfl
+  rw [hsnoc]
+  have := debounce_registry usizeMax thr hthr pred (xs.take k ++ [x])
+  by_cases h1 : thr ≤ debounceRun usizeMax pred 0 (xs.take k ++ [x])
+  · have h2 : thr ≤ Spec.trailingRun pred (xs.take k ++ [x]) := by simpa [h1] using this
+    simp [h1, h2]
+  · have h2 : ¬ thr ≤ Spec.trailingRun pred (xs.take k ++ [x]) := by simpa [h1] using this
+    simp [h1, h2]
+
+/-- **C06 at registry level**: fed (measurement, control) pairs, output `k` is the estimate of the textbook recursion
+after the first `k+1` pairs — for every sample type and configuration -/
+theorem kalman_registry_correct (c : KCfg α) (zs : List (α × α)) :
+    ∃ s' ys, (Cfg.kalman c).init.run (zs.map (fun p => [p.1, p.2])) = some (s', sing ys) ∧ ys.length = zs.length ∧
+      ∀ k zu, zs[k]? = some zu →
+        (ys[k]?).map some = some ((Spec.kalmanTextbookRun c (zs.take (k + 1))).map (·.1)) := by
+  -- the run over pairs, by induction (the generic lemma is for single inputs)
+  have hrun : ∀ (zs : List (α × α)) (s : KState α),
+      (St.kalman c s).run (zs.map (fun p => [p.1, p.2])) =
+        some (St.kalman c (stepRun (fun s (zu : α × α) => kalmanStep c s zu.1 zu.2) s zs).1,
+              sing (stepRun (fun s (zu : α × α) => kalmanStep c s zu.1 zu.2) s zs).2) := by
+    intro zs
+    induction zs with
+    | nil => intro s; rfl
+    | cons zu zs ih => intro s; simp [St.run, St.filter, ih, stepRun]
+  refine ⟨_, _, hrun zs _, stepRun_length _ _ _, ?_⟩
+  intro k zu hzu
+  rw [stepRun_getElem _ _ _ k zu hzu]
+  have htake : zs.take (k + 1) = zs.take k ++ [zu] := by rw [List.take_add_one, hzu]; rfl
+  rw [htake, kalmanTextbookRun_snoc, ← kalman_state c (zs.take k)]
+  simp only [Option.map_some]
+  rw [(kalman_step_textbook c _ zu.1 zu.2).1]
+
+end SignaloModel.Registry
+
+#print axioms SignaloModel.Registry.debounce_registry_correct
+#print axioms SignaloModel.Registry.kalman_registry_correct
+
+namespace SignaloModel.Registry
+open SignaloModel SignaloModel.Classify
+
+section peaks
+variable {α : Type} [LinearOrder α] [Add α] [Sub α] [Mul α] [Div α] [Neg α] [OfNat α 0] [OfNat α 1]
+  [BEq α] [Median.POrd α]
+
+theorem peaksStep_spec (p2 p1 : Option α) (hwf : p1 = none → p2 = none) (x : α) :
+    (peaksStep (stateOf p2 p1) x).2 = peakSpec p2 p1 x ∧ (peaksStep (stateOf p2 p1) x).1 = stateOf p1 (some x) := by
+  have h := peaks_correct [x] p2 p1 hwf
+  simp only [peaksRun, peakSpecRun, List.cons.injEq, and_true] at h
+  exact ⟨h, by simp [peaksStep, stateOf]⟩
+
+theorem dropLast_getLast_snoc (l : List α) (x : α) :
+    ((l ++ [x]).dropLast.getLast? = l.getLast?) ∧ ((l ++ [x]).getLast? = some x) := by
+  simp
+
+/-- **C09 (peaks) at registry level**, total orders: output `k` is a maximum exactly when `x[k-2] < x[k-1] > x[k]`, a
+minimum exactly when `x[k-2] > x[k-1] < x[k]`, none otherwise (always none for the first two samples) -/
+theorem peaks_registry_correct (o0 o1 o2 : α) (xs : List α) :
+    ∃ s' ys, (Cfg.peaks [o0, o1, o2]).init.run (sing xs) = some (s', sing ys) ∧ ys.length = xs.length ∧
+      ∀ k x, xs[k]? = some x →
+        ys[k]? = some (match Spec.peakAt (xs.take (k + 1)) with | .max => o0 | .none => o1 | .min => o2) := by
+  have hrun := run_of_step (fun s => St.peaks [o0, o1, o2] s)
+    (fun (s : PeaksState α) x => ((peaksStep s x).1, match (peaksStep s x).2 with | .max => o0 | .none => o1 | .min => o2))
+    (by
+      intro s x
+      simp only [St.filter, pick, peakIdx]
+      cases (peaksStep s x).2 <;> simp) { prevInput := none, slope := none } xs
+  refine ⟨_, _, hrun, stepRun_length _ _ _, ?_⟩
+  intro k x hx
+  rw [stepRun_getElem _ _ _ k x hx, take_succ_snoc xs k x hx, ← peak_spec]
+  have hstate : ∀ l : List α, (stepRun (fun (s : PeaksState α) x => ((peaksStep s x).1,
+      match (peaksStep s x).2 with | .max => o0 | .none => o1 | .min => o2)) { prevInput := none, slope := none } l).1
+      = stateOf l.dropLast.getLast? l.getLast? := by
+    intro l
+    induction l using snocInd with
+    | nil => rfl
+    | snoc l y ih =>
+      rw [stepRun_append, ih]
+      simp only [stepRun]
+      have hwf : l.getLast? = none → l.dropLast.getLast? = none := by
+        intro h
+        have : l = [] := by simpa [List.getLast?_eq_none_iff] using h
+        subst this; rfl
+      rw [(peaksStep_spec _ _ hwf y).2]
+      simp
+  rw [hstate]
+  have hwf : (xs.take k).getLast? = none → (xs.take k).dropLast.getLast? = none := by
+    intro h
+    have : xs.take k = [] := by simpa [List.getLast?_eq_none_iff] using h
+    rw [this]; rfl
+  rw [(peaksStep_spec _ _ hwf x).1]
+
+end peaks
+
+end SignaloModel.Registry
+
+#print axioms SignaloModel.Registry.peaks_registry_correct
